@@ -122,6 +122,20 @@ def main():
 
     violations = []
     replay_log = []
+    extra_notes = {}
+    if P.get('extra'):
+        import importlib
+        ex = importlib.import_module(P['extra']).run(args.tier, REPO, HERE, PYRUN)
+        if ex.get('fault'):
+            print('CHECKER-FAULT: ' + ex['fault'])
+            return 3
+        obligations += ex['obligations']
+        discharged += ex['discharged']
+        by_backend['table-analysis/lean'] += ex['discharged']
+        trusted |= set(ex['trusted'])
+        extra_notes = ex['notes']
+        for v in ex['violations']:
+            violations.append(v)
     # ---- refuted candidates: replay the counter-model on the real code ----------------------
     seen = set()
     confirmed_keys = set()
@@ -184,7 +198,16 @@ def main():
         k = o['known']
         if k['id'] not in kf_reported:
             kf_reported.add(k['id'])
-            lines.append('KNOWN-FINDING: property=%s %s' % (prop, k['what']))
+            still = True
+            if k.get('demo'):
+                env = dict(os.environ, VERIF_REPO=REPO, PYTHONPATH=REPO)
+                pr = subprocess.run([PYRUN, '-W', 'ignore', '-c', k['demo']], capture_output=True, text=True, env=env, cwd='/tmp', timeout=120)
+                still = 'DEFECT' in pr.stdout
+                replay_log.append({'known_finding': k['id'], 'demo_output': pr.stdout.strip()[-200:]})
+            if still:
+                lines.append('KNOWN-FINDING: property=%s %s' % (prop, k['what']))
+            else:
+                lines.append('NOTE: known finding %s no longer reproduces concretely, but its obligation is still not proved' % k['id'])
     final_viol = []
     seen_v = set()
     for v in violations:
@@ -243,7 +266,7 @@ def main():
             'undecided_obligations': und_keys,
             'unsupported': ['%s %s: %s' % (c.split('.')[-1], json.dumps(cs), u) for c, cs, u in unsupported][:20],
             'samples': samples or [{'note': 'all obligations were discharged by the incremental path solver'}],
-            'replays': replay_log[:20], 'bounded_stand_in': bounded_info,
+            'replays': replay_log[:20], 'bounded_stand_in': bounded_info, 'extra': extra_notes,
             'known_findings_reported': sorted(kf_reported),
             'excluded_by_known_finding': len(knownhits),
             'platform_pruned': sorted({p for r in results for p in r.get('pruned', [])}),
